@@ -5,6 +5,9 @@ Require Import Lia ZifyBool.
 Ltac Zify.zify_post_hook ::= Z.div_mod_to_equations.
 Local Open Scope Z_scope.
 
+(* the texts are never computed with in the proofs *)
+Global Opaque R_TEXT a_text resume_text enable_text END_TEXT.
+
 (* ------------------------------------------------------------------ generalities *)
 Lemma gfold_app g a b : gfold g (a ++ b) = gfold (gfold g a) b.
 Proof. unfold gfold. apply fold_left_app. Qed.
